@@ -195,6 +195,18 @@ class ListField(Field):
         proxy = ListProxy(cfg, self, value)
         return proxy
 
+    def __setval__(self, cfg: Config, value: Any) -> None:
+        """
+        Store the validated list. The item configurations now live in the stored proxy (validation
+        copied them out of another proxy, e.g. the one built by to_python during a load), so their
+        positions are reported relative to it.
+        """
+        if isinstance(value, ListProxy):
+            for item in value:
+                if isinstance(item, Config):
+                    item._container = value
+        super().__setval__(cfg, value)
+
     def to_basic(self, cfg: Config, value: Union[list, ListProxy]) -> list:
         """
         Convert to basic type.
